@@ -6,7 +6,7 @@ answer after the state left Processing); park: on the `idx != 0` edge a result i
 future pending pushes exactly one Pending slot and takes its index from base + queue.len() read
 before the push; every pop of the queue advances base by one; control-serial: both server factories
 wrap the control service in InFlightService(1) inside BufferService(16). The wrapping index
-arithmetic for all completion permutations is a statement about runtime integers and is not decided. park (continued): once the parked handler future was taken out of `state.response`, no return is reachable before it is put back, completed (handle_result) or found absent. no-drop (continued): the connection-level Encoder/Decoder (MqttShared) hands every item to the protocol codec on every path and reports Ok only where the codec did; answered (continued): a SUBSCRIBE / UNSUBSCRIBE / PUBLISH arm yields the empty answer only on the connection-closed edge or on the duplicate-id edge whose answer was written directly. answered (continued): every answer kind of the MQTT 3.1.1 control service that stands for a request yields its packet on every path of its arm in Inner::control; no-drop (continued): every Ok exit of the protocol codecs' Encoder::encodev has passed a call that received the output buffer. answered (continued): the PINGREQ arm of the dispatchers never yields an empty answer outside the connection-closing edge.
+arithmetic for all completion permutations is a statement about runtime integers and is not decided. park (continued): once the parked handler future was taken out of `state.response`, no return is reachable before it is put back, completed (handle_result) or found absent. no-drop (continued): the connection-level Encoder/Decoder (MqttShared) hands every item to the protocol codec on every path and reports Ok only where the codec did; answered (continued): a SUBSCRIBE / UNSUBSCRIBE / PUBLISH arm yields the empty answer only on the connection-closed edge or on the duplicate-id edge whose answer was written directly. answered (continued): every answer kind of the MQTT 3.1.1 control service that stands for a request yields its packet on every path of its arm in Inner::control; no-drop (continued): every Ok exit of the protocol codecs' Encoder::encodev has passed a call that received the output buffer. answered (continued): the PINGREQ arm of the dispatchers never yields an empty answer outside the connection-closing edge. control-serial (continued): ready() of all four dispatchers polls the control pipeline (a protocol message parked in its buffer is released only from there).
 """
 from facts import *
 from disp import agg_sites
